@@ -353,7 +353,7 @@ class World:
             return 'none' if v is None else str(v)
         lp = tr.local_path
         return dict(st=tr.state.VALUE.name, remQ=bool(tr.remotely_queued), qa=int(tr.queue_attempts),
-                    piq=s(tr.place_in_queue), fr=s(tr.fail_reason), ar=s(tr.abort_reason),
+                    piq=s(tr.place_in_queue), failR=s(tr.fail_reason), ar=s(tr.abort_reason),
                     lp='none' if lp is None else os.path.basename(lp), bt=int(tr.bytes_transfered))
 
     def snapshot(self):
@@ -378,7 +378,7 @@ class World:
                             f=self.fields(tr)))
         while len(out) < NT:
             out.append(dict(present=False, rq=0, tt=0, lrq=[], ltt=[], loth=[],
-                            f=dict(st='NONE', remQ=False, qa=0, piq='none', fr='none', ar='none', lp='none', bt=0)))
+                            f=dict(st='NONE', remQ=False, qa=0, piq='none', failR='none', ar='none', lp='none', bt=0)))
         return out
 
     def _record(self, ev, t=0, o='none', val='none', what='none', ts=(), amb=False):
@@ -386,7 +386,7 @@ class World:
         # reader loop of that connection may be held up behind an earlier frame (a handler waiting for a state lock)
         told = [[e['t'], e['f']] for e in self.telling]
         for e in list(self.telling):
-            cur = self.fields(self.transfers[e['t'] - 1])[e['f']]
+            cur = self._told_value(e['t'], e['f'])
             if cur != e['old'] or e.get('closed_noop'):
                 self.telling.remove(e)
         rec = dict(ev=ev, t=t, o=o, val=val, what=what, ts=list(ts), amb=bool(amb), told=told,
@@ -640,18 +640,28 @@ class World:
         await self.pause_a_bit()
         self._record('stim', o='offer', t=t)
 
-    async def peer_queue_failed(self, t):
-        """The peer refuses to queue download t (PeerTransferQueueFailed)."""
+    def _told_value(self, t, f):
+        fl = self.fields(self.transfers[t - 1])
+        return (fl['st'], fl['failR']) if f == 'fail' else fl[f]
+
+    async def peer_queue_failed(self, t, r='text'):
+        """The peer refuses to queue download t (PeerTransferQueueFailed); the reason is a free-form string, r='empty'
+        sends the boundary value ''.  A PAUSED download is failed by this frame (documented edge): the peer is
+        "telling" its state / fail reason until the client has taken it over."""
         tr = self.transfers[t - 1]
-        tk = getattr(self, 'pending_call', None)
-        pausing = tk is not None and not tk.done() and getattr(self, 'pending_t', 0) == t and 'pause' in tk.get_name()
-        if tr.is_upload() or tr.state.VALUE.name == 'PAUSED' or pausing or not any(x is tr for x in self.tm.transfers):
+        if tr.is_upload() or not any(x is tr for x in self.tm.transfers):
             self._record('stim', o='queue-failed-skipped', t=t)
             return
         link = await self._peer_p_link()
-        link.ep.send_message(self.M.PeerTransferQueueFailed.Request(self.names[t - 1], 'Banned'))
+        entry = dict(t=t, f='fail', old=self._told_value(t, 'fail'))
+        self.telling.append(entry)
+        self._record('stim', o='queue-failed-begin', t=t, what=r)
+        reason = '' if r == 'empty' else self.conc.get('reason', 'Banned')
+        link.ep.send_message(self.M.PeerTransferQueueFailed.Request(self.names[t - 1], reason))
         await self.pause_a_bit()
-        self._record('stim', o='queue-failed', t=t)
+        if not self._call_pending(t):
+            entry['closed_noop'] = True     # no handler is waiting for the transfer's state lock: it has been handled
+        self._record('stim', o='queue-failed', t=t, what=r)
 
     async def peer_queue(self, t):
         """The peer asks again for upload t (PeerTransferQueue for a transfer we already have)."""
@@ -991,7 +1001,7 @@ def stimuli_of(labels):
         elif name == 'PeerOffer':
             out.append(['peer_offer', a[0]])
         elif name == 'PeerQueueFailed':
-            out.append(['peer_queue_failed', a[0]])
+            out.append(['peer_queue_failed', a[0], a[1]])
         elif name == 'PeerQueue':
             out.append(['peer_queue', a[0]])
         elif name == 'PeerTells':
@@ -1097,18 +1107,28 @@ PINNED = [
      'ok'),
     (('uq',), (('cycle',), ('direct', 1, 'init', 1, 'ok'), ('reply', 1, 1, 'allow'), ('direct', 1, 'init', 1, 'ok', 'fdirect'),
                ('offset', 1, 1, 'ok'), ('call', 1, 'abort', None, False)), 'timeout'),
+    # a cycle lands inside remove() of a transfer that cannot be aborted (the call is waiting for its cancelled task)
+    (('df',), (('cycle',), ('call', 1, 'remove', 0, False)), 'timeout'),
+    (('df',), (('cycle',), ('call', 1, 'remove', 1, False)), 'ok'),
+    (('df',), (('cycle',), ('call', 1, 'remove', 2, False)), 'timeout'),
     # a user call lands while the management cycle waits for the file system between selecting and starting
     (('uq',), (('cycle_hold',), ('call', 1, 'abort', None, False), ('fs_release',)), 'ok'),
     (('uq',), (('cycle_hold',), ('call', 1, 'remove', None, False), ('fs_release',)), 'timeout'),
     (('dq', 'uq'), (('cycle_hold',), ('call', 2, 'pause', None, False), ('call', 1, 'pause', None, False), ('fs_release',),
                     ('requeue', 2)), 'ok'),
     (('di',), (('cycle_hold',), ('call', 1, 'abort', None, True), ('fs_release',), ('release', 1)), 'timeout'),
+    # the peer fails a paused download, with the boundary value of the free-form reason; cycles follow
+    (('dq',), (('cycle',), ('call', 1, 'pause', None, False), ('peer_queue_failed', 1, 'empty'), ('cycle',), ('cycle',)), 'ok'),
+    (('dq', 'dq'), (('call', 1, 'pause', None, False), ('peer_queue_failed', 1, 'text'), ('cycle',),
+                    ('peer_queue_failed', 2, 'empty'), ('cycle',), ('call', 2, 'pause', None, False), ('cycle',)), 'timeout'),
+    (('di',), (('cycle',), ('call', 1, 'pause', None, False), ('peer_queue_failed', 1, 'empty'), ('cycle',),
+               ('requeue', 1)), 'timeout'),
     # peer frames landing inside a parked call / after its return
     (('di',), (('call', 1, 'abort', None, True), ('peer_queue_failed', 1), ('release', 1)), 'timeout'),
     (('di',), (('cycle',), ('call', 1, 'remove', None, True), ('peer_queue_failed', 1), ('peer_tells', 1, 'piq'),
-               ('release', 1), ('peer_queue_failed', 1)), 'ok'),
+               ('release', 1), ('peer_queue_failed', 1, 'text')), 'ok'),
     (('dq',), (('cycle',), ('direct', 1, 'rq', 1, 'ok'), ('call', 1, 'abort', None, False), ('peer_tells', 1, 'remQ'),
-               ('peer_tells', 1, 'piq'), ('peer_queue_failed', 1)), 'timeout'),
+               ('peer_tells', 1, 'piq'), ('peer_queue_failed', 1, 'text')), 'timeout'),
     # the uploader repeats its offer with a new ticket while the first is being processed
     (('dq',), (('cycle',), ('peer_offer', 1), ('peer_offer', 1), ('call', 1, 'abort', None, False)), 'timeout'),
     (('dq',), (('cycle',), ('peer_offer', 1), ('peer_offer', 1), ('call', 1, 'pause', None, False),
@@ -1531,9 +1551,11 @@ def run(chk: Check, args):
         'tasks are found by what they hold (the Transfer object or its remote path among the locals of their '
         'coroutine) or by the slot that references them, never by name; the kind of a task is the slot '
         '(_remotely_queue_task / _transfer_task) in which it is first seen',
-        'PeerTransferQueueFailed is not sent for a PAUSED download (PAUSED -> FAILED is a documented edge the peer may '
-        'take); remotely_queued / place_in_queue mirror the peer\'s queue: a change of exactly that field in the span '
-        'in which the peer tells it (PeerUploadFailed / PeerPlaceInQueueReply) is not a change made by the client',
+        'remotely_queued / place_in_queue mirror the peer\'s queue: a change of exactly that field in the span in '
+        'which the peer tells it (PeerUploadFailed / PeerPlaceInQueueReply) is not a change made by the client; '
+        'likewise PAUSED -> FAILED (+ fail_reason) on the peer\'s PeerTransferQueueFailed is a documented edge - the '
+        'transfer stays quiet afterwards (a queue failure is no re-queue); the reason is sent with ordinary text '
+        'and with the boundary value \'\'',
         'any task (whatever its name) whose coroutine holds the Transfer object or its remote path counts as working '
         'for the transfer; it must be reachable through Transfer.get_tasks()',
         'peer status changes used as cycle triggers are ONLINE/AWAY (an OFFLINE status resets remotely_queued of '
